@@ -213,6 +213,12 @@ class compose_slices:
     def ensures(result, outer_slice, inner_slice, dim_size, k):
         r = composed(result, outer_slice, inner_slice, dim_size, k)
         r["step-ok"] = S.step_ok(result)
+
+        def unit(s):
+            c = S.parts(s)[2]
+            return S.Or(S.is_none(c), S.val(c, 1) == 1)
+        # what FromArray regions rely on: unit steps compose to a unit step
+        r["unit-steps-compose"] = S.Implies(S.And(unit(outer_slice), unit(inner_slice)), unit(result))
         return r
 
     def ghost_domain(outer_slice, inner_slice, dim_size):
